@@ -39,7 +39,7 @@ type runSpec struct {
 
 type inode struct{ i int }
 
-var inodes [256]*inode
+var inodes [1024]*inode
 
 func init() {
 	for i := range inodes {
@@ -135,6 +135,17 @@ func children(spec runSpec, i int) []int {
 		if i == 0 {
 			for j := 1; j <= rvWidth(spec)-1; j++ {
 				out = append(out, j)
+			}
+		}
+	case 6: // popular item: item 0 adds everybody, and everybody adds the last item (and, every other one, item 0 again)
+		if i == 0 {
+			for j := 1; j < spec.M; j++ {
+				out = append(out, j)
+			}
+		} else if i < spec.M-1 {
+			out = append(out, spec.M-1)
+			if x%2 == 0 {
+				out = append(out, 0)
 			}
 		}
 	default: // bursts: every 7th item adds a block
@@ -323,6 +334,11 @@ func oneRun(spec runSpec, out *batchOut) {
 func genSpec(rng *rand.Rand) runSpec {
 	s := runSpec{Seed: rng.Int63(), Shape: rng.Intn(6)}
 	s.M = []int{1, 2, 3, 5, 8, 20, 60, 200}[rng.Intn(8)]
+	if rng.Intn(30) == 0 {
+		// one item is added hundreds of times (by every other item): still one call
+		s.Shape = 6
+		s.M = []int{258, 300, 520, 700}[rng.Intn(4)]
+	}
 	s.N = []int{1, 2, 3, 4, 8, 64}[rng.Intn(6)]
 	if rng.Intn(40) == 0 {
 		s.N = []int{255, 256, 257, 300, 1000}[rng.Intn(5)] // far more runners than items: they must all go home
@@ -338,8 +354,13 @@ func genSpec(rng *rand.Rand) runSpec {
 	if rng.Intn(3) == 0 {
 		s.Roots = append(s.Roots, s.Roots[0]) // duplicate Add before Do
 	}
-	if s.Shape == 2 || s.Shape == 3 {
+	if s.Shape == 2 || s.Shape == 3 || s.Shape == 6 {
 		s.Roots[0] = 0
+	}
+	if s.Shape == 6 && rng.Intn(2) == 0 {
+		for i := 0; i < 300; i++ {
+			s.Roots = append(s.Roots, 0) // the same root added hundreds of times before Do
+		}
 	}
 	if rng.Intn(25) == 0 {
 		// nothing is ever added: Do must return at once, for every n (the zero Work is ready to use)
@@ -407,7 +428,7 @@ func main() {
 		return
 	}
 	vlib.Main("C09", "exploration", 15*time.Minute, func(r *vlib.Run) {
-		r.Rule("runs of Work.Do over deterministic item graphs (1-200 items; shapes: random fan-out with duplicates/self/back edges, chain, wide fan with back-edges, binary tree with duplicate adds, bursts, rendezvous fan: one call adds min(n,items)-1 items back to back and all these calls wait for each other, so a lost wake-up is a deadlock), 0-5 roots added before Do (with duplicates; one run in 25 adds nothing at all), n in {1,2,3,4,8,64} (one run in 40: 255, 256, 257, 300 or 1000); items are ints, in a third of the runs strings, pointers (one of them a typed nil) or ints with one item being the nil interface value; f perturbs itself (Gosched / spin / sleep) at entry, between Adds and at exit; each batch runs in a child process, once in a non-race build (the runtime's deadlock detector is the termination oracle) and once in a race build (watchdog + goroutine-dump classification), GOMAXPROCS in {1,2,4,16}. Distinct non-trivial = distinct item start-order signatures observed.")
+		r.Rule("runs of Work.Do over deterministic item graphs (1-200 items; shapes: random fan-out with duplicates/self/back edges, chain, wide fan with back-edges, binary tree with duplicate adds, bursts, popular item: 258-700 items all adding the same one, so that it is added hundreds of times; rendezvous fan: one call adds min(n,items)-1 items back to back and all these calls wait for each other, so a lost wake-up is a deadlock), 0-5 roots added before Do (with duplicates; one run in 25 adds nothing at all), n in {1,2,3,4,8,64} (one run in 40: 255, 256, 257, 300 or 1000); items are ints, in a third of the runs strings, pointers (one of them a typed nil) or ints with one item being the nil interface value; f perturbs itself (Gosched / spin / sleep) at entry, between Adds and at exit; each batch runs in a child process, once in a non-race build (the runtime's deadlock detector is the termination oracle) and once in a race build (watchdog + goroutine-dump classification), GOMAXPROCS in {1,2,4,16}. Distinct non-trivial = distinct item start-order signatures observed.")
 		r.Assume("interleavings are sampled, not enumerated (the statement's quantifier asks for a controlled scheduler, which is a different technique): a bug that needs one specific rare order can be missed")
 		base := vlib.Scratch()
 		build := os.Getenv("VERIF_BUILD")
